@@ -14,6 +14,7 @@ import (
 	"testing/synctest"
 	"time"
 
+	"github.com/iotaledger/iota.go/trinary"
 	pow1 "github.com/wollac/iota-crypto-demo/pkg/pow"
 	pow2 "github.com/wollac/iota-crypto-demo/pkg/pow/v2"
 
@@ -45,6 +46,14 @@ func init() {
 	}
 	pow1.SimState = st
 	pow2.SimState = st
+	// Score's hash hook: in stub-hash runs Score judges a message by the same seeded oracle the workers saw
+	dg := func(digest trinary.Trits, nonce uint64) {
+		if s := curStub.Load(); s != nil {
+			copy(digest, s.Trits(nonce))
+		}
+	}
+	pow1.SimDigest = dg
+	pow2.SimDigest = dg
 }
 
 func logBatch(s *stub, nonce uint64) {
@@ -590,6 +599,7 @@ func (w *world) judge(st *stub) {
 		return
 	}
 	w.res.Outcome = "nonce"
+	w.scoreProbes(st)
 	if cancelBeforeReturn {
 		w.probes["nonce_despite_cancel"] = 1
 		if len(w.found) > 0 {
@@ -597,6 +607,57 @@ func (w *world) judge(st *stub) {
 		}
 	}
 	w.judgeNonce(st)
+}
+
+// scoreProbes (stub-hash runs): the repository's Score, which sees the crafted hashes through its hash hook,
+// must equal the reference score on the returned nonce and on the planted nonces of the run. This drives Score
+// over hashes no real mining reaches (40+ trailing zeros, values at the exact thresholds, the all-zero hash).
+func (w *world) scoreProbes(st *stub) {
+	if st == nil {
+		return
+	}
+	cfg := w.cfg
+	L := cfg.msgLen()
+	data := cfg.data()
+	nonces := []uint64{w.ret.nonce}
+	for i, sp := range cfg.Stub.Specials {
+		if i >= 10 {
+			break
+		}
+		nonces = append(nonces, sp.Nonce)
+	}
+	sig := map[string]any{"version": cfg.Version, "hash": cfg.Hash}
+	for _, n := range nonces {
+		trits := st.Trits(n)
+		msg := ref.Msg(data, n)
+		w.probes["score_probe"] = 1
+		if cfg.Version == 1 {
+			z := ref.TrailingZeros(trits)
+			got, want := pow1.Score(msg), ref.V1ScoreFloat(z, L)
+			tol := uint64(0)
+			if z > 33 {
+				tol = 16 // 3^z is not representable: allow for the rounding of math.Pow
+				w.probes["score_probe_z_gt_33"] = 1
+			}
+			if ref.Ulps(got, want) > tol {
+				w.violate("score-mismatch", fmt.Sprintf("pow.Score of a message of %d bytes whose hash has %d trailing zero trits is %v, reference 3^%d/%d = %v", L, z, got, z, L, want), sig)
+				return
+			}
+			continue
+		}
+		d := ref.Difficulty(trits)
+		got, want := pow2.Score(msg), ref.V2ScoreFromDifficulty(d, L)
+		if !d.IsUint64() {
+			w.probes["score_probe_big_difficulty"] = 1
+		}
+		if want == ^uint64(0) {
+			w.probes["score_probe_saturated"] = 1
+		}
+		if got != want {
+			w.violate("score-mismatch", fmt.Sprintf("v2.Score of a message of %d bytes with difficulty %v is %d, reference min(floor(d/len), 2^64-1) = %d", L, d, got, want), sig)
+			return
+		}
+	}
 }
 
 func (w *world) judgeNonce(st *stub) {
@@ -610,6 +671,10 @@ func (w *world) judgeNonce(st *stub) {
 		var z int
 		if st != nil {
 			z = ref.TrailingZeros(st.Trits(n))
+			if got := pow1.Score(msg); !(got >= target) && !(z > 33 && ref.Ulps(got, target) <= 16) {
+				w.violate("nonce-below-target", fmt.Sprintf("Mine(target=%v = %#x, len %d) returned nonce %d with Score %v (crafted hash with %d trailing zeros)", target, cfg.TargetBits, L, n, got, z), sig)
+				return
+			}
 			if d := z - st.cc.z; d <= 2 {
 				w.res.Tags["returned_zeros_minus_required"] = fmt.Sprint(d)
 			} else {
@@ -647,6 +712,10 @@ func (w *world) judgeNonce(st *stub) {
 	var trits []int8
 	if st != nil {
 		trits = st.Trits(n)
+		if got := pow2.Score(msg); got < cfg.TargetBits {
+			w.violate("nonce-below-target", fmt.Sprintf("v2 Mine(target=%d, len %d) returned nonce %d with Score %d (crafted hash, difficulty %v)", cfg.TargetBits, L, n, got, ref.Difficulty(trits)), sig)
+			return
+		}
 	} else {
 		trits = ref.PowHash(msg)
 		got := pow2.Score(msg)
